@@ -436,7 +436,9 @@ func (e *executor) connectStepDependencies(
 				if data != nil {
 					stageData[inputField] = data
 				}
-				if err := e.prepareDependencies(workflowContext, data, currentStageNode, []string{}, internalDataModel, dag); err != nil {
+				// The field name is part of the path so that the dependency groups of tagged values
+				// in different fields of the same stage (e.g. input and wait_for) get distinct node IDs.
+				if err := e.prepareDependencies(workflowContext, data, currentStageNode, []string{inputField}, internalDataModel, dag); err != nil {
 					return fmt.Errorf("failed to build dependency tree for '%s' (%w)", currentStageNode.ID(), err)
 				}
 			}
